@@ -1,4 +1,5 @@
 import collections
+import collections.abc
 import copy
 from quara.objects.mprocess import MProcess
 from typing import List, Tuple, Union
@@ -296,6 +297,11 @@ class Experiment:
         """
 
         for i, schedule in enumerate(schedules):
+            if not isinstance(schedule, collections.abc.Sequence):
+                message = "The schedules[{}] is invalid.\n".format(i)
+                message += "Invalid Schedule: [{}] {}\n".format(i, str(schedule))
+                message += "\nDetail: A schedule must be a sequence of items."
+                raise QuaraScheduleItemError(message)
             try:
                 for j, item in enumerate(schedule):
                     self._validate_schedule_item(item, objdict=objdict)
